@@ -281,6 +281,7 @@ func (st *State) writeFam(f *Family, args []Term, val Term) {
 		}
 		return and(conds...)
 	}, func(p []Term) Term { return val })
+	st.sc.assert(eq(app(f.Res, st.heap[f.Name], args...), val))
 }
 
 // updateFamWhere: F'(x..) = ite(cond(x..), newval(x..), F(x..)). The new
@@ -400,6 +401,8 @@ func (st *State) storeLoc(l Loc, v Term) {
 			v = st.updatePath(st.getElem(st.heap, f, *l.Sl, *l.Rel), l.Path, v)
 		}
 		st.updateElems(f, l.Obj, l.Idx, add(l.Idx, intLit(1)), tTrue, func(abs Term) Term { return v })
+		// ground instance: introduces the term for the cell just written
+		st.sc.assert(eq(st.getElem(st.heap, f, *l.Sl, *l.Rel), v))
 	default:
 		panic("storeLoc: unsupported loc kind")
 	}
